@@ -541,7 +541,10 @@ pub fn scenario(ctx: &mut Ctx) -> ScResult {
             Ev::ToServer { bytes, from, reply_to } => {
                 server.handled += 1;
                 let creds = server.creds.clone();
-                let r = g(&ctx.cfg.prop, "server: handle_incoming_data", || server_handle(&mut server.udp, &bytes, from, &creds, None))?;
+                // (stund.rs answers UDP requests with the built bytes directly; an application may just as
+                // well hand the answer to its agent's send — done here for every other datagram)
+                let via = if ctx.ch.coin() { Some(anchor() + std::time::Duration::from_nanos(at)) } else { None };
+                let r = g(&ctx.cfg.prop, "server: handle_incoming_data", || server_handle(&mut server.udp, &bytes, from, &creds, via))?;
                 let sa0 = server.addr;
                 server_judge(ctx, &mut server.udp, &mut server.udp_ledger, sa0, false, &bytes, from, &r, at)?;
                 if let Some(resp) = r.resp {
